@@ -14,13 +14,14 @@ import re
 from .. import analysis
 from ..cfg import build_cfg
 from ..symtext import Expander, effect_calls
-from ..astutil import atoms_at, value_cases, calls_in, call_name, where, kw
+from ..astutil import truthiness_tests, atoms_at, value_cases, calls_in, call_name, where, kw
 from ..cfg import build_cfg, enclosing_handlers
 from ..facts import readable_attrs
 from ..fold import Folder
 from ..model import AnalysisError, FuncInfo, unparse, walk_no_nested
 from ..raises import Raises
-from ..tables import VALIDATION_RULES, VALIDATION_OPTIONAL
+from ..dataflow import private_closure
+from ..tables import FALSY_SET_ATTRIBUTES, VALIDATION_RULES, VALIDATION_OPTIONAL
 from .rules_card import cardinality_validation_rule
 
 DECIDED = [
@@ -52,18 +53,12 @@ def issue_ids_of(prog, f, seen=None, depth=0):
     return out
 
 
-def run(prog, rep):
-    rep.decided = DECIDED
-    rep.not_decided = NOT_DECIDED
-    an = analysis.get(prog)
-    an.note_coverage(rep)
-    K, S = an.k, an.s
+def tab2_rule(prog, rep, K, rule="TAB-2", only_rank=None):
+    """registry completeness (shared with C07, where only the error rules matter: they are what blocks saving)."""
     vmod = prog.module_of("validation")
     default, custom = K.registry()
-    fd = Folder(prog)
-
     # ----------------------------------------------------------------- TAB-2
-    rep.rule("TAB-2", "registry = {(kind, handler)} from the module level Validation.register_handler calls; the IssueIDs a handler "
+    rep.rule(rule, "registry = {(kind, handler)} from the module level Validation.register_handler calls; the IssueIDs a handler "
                       "reports are the IssueID.<x> it (or the helpers it calls) mentions; for every documented rule x the set of kinds "
                       "with a handler reporting x equals the documented set; every IssueID member exists; nothing is registered for an "
                       "unknown kind")
@@ -72,43 +67,51 @@ def run(prog, rep):
     reported = {}
     n_reg = 0
     for kind, hs in sorted(default.items()):
-        rep.check(kind in KIND_CLASS, "TAB-2", "registration kind '%s'" % kind, "known kind", "handlers registered for unknown kind %r "
+        rep.check(kind in KIND_CLASS, rule, "registration kind '%s'" % kind, "known kind", "handlers registered for unknown kind %r "
                   "(validate() looks up obj.format().name: odML/section/property)" % kind, vmod.path)
         for h in hs:
             n_reg += 1
             rep.saw_function(h)
             for i in issue_ids_of(prog, h):
                 reported.setdefault(i, set()).add(kind)
-    rep.floor("TAB-2", n_reg, 14, "registrations")
+    rep.floor(rule, n_reg, 14, "registrations")
     for rule_id, (kinds, rank) in sorted(VALIDATION_RULES.items()):
-        rep.check(rule_id in members, "TAB-2", "IssueID.%s exists" % rule_id, "ok", "IssueID.%s vanished" % rule_id, vmod.path)
+        if only_rank is not None and rank != only_rank:
+            continue
+        rep.check(rule_id in members, rule, "IssueID.%s exists" % rule_id, "ok", "IssueID.%s vanished" % rule_id, vmod.path)
         got = reported.get(rule_id, set())
-        rep.check(got == kinds, "TAB-2", "rule %s registered for %s" % (rule_id, sorted(kinds)), str(sorted(got)),
+        rep.check(got == kinds, rule, "rule %s registered for %s" % (rule_id, sorted(kinds)), str(sorted(got)),
                   "rule %s is reported for kinds %s, documented: %s (missing %s, extra %s)"
                   % (rule_id, sorted(got), sorted(kinds), sorted(kinds - got), sorted(got - kinds)), vmod.path,
                   witness="objects of kind %s are never checked by rule %s" % (sorted(kinds - got), rule_id) if kinds - got else
                   "rule %s fires for objects it is not defined for" % rule_id)
     extra = set(reported) - set(VALIDATION_RULES) - VALIDATION_OPTIONAL
-    rep.check(not extra, "TAB-2", "no undocumented default rule", "ok", "default registry reports undocumented IssueIDs %s" % sorted(extra), vmod.path)
+    rep.check(not extra, rule, "no undocumented default rule", "ok", "default registry reports undocumented IssueIDs %s" % sorted(extra), vmod.path)
 
+
+
+def tab3_rule(prog, rep, rule="TAB-3", only_rank=None):
+    """rank table (shared with C07 for the error rules)."""
+    vmod = prog.module_of("validation")
+    fd = Folder(prog)
     # ----------------------------------------------------------------- TAB-3
-    rep.rule("TAB-3", "for every ValidationError(...) construction: IssueID (4th positional / validation_id=, resolved through the local "
+    rep.rule(rule, "for every ValidationError(...) construction: IssueID (4th positional / validation_id=, resolved through the local "
                       "`validation_id = IssueID.x` or the callers' argument) and rank (3rd positional / rank=, default LABEL_ERROR) form a "
                       "pair of the documented rank table; LABEL_ERROR = 'error', LABEL_WARNING = 'warning'")
     labels = {}
     for nm in ("LABEL_ERROR", "LABEL_WARNING"):
         labels[nm] = fd.module_const("odml.validation", nm)
-    rep.check(labels == {"LABEL_ERROR": "error", "LABEL_WARNING": "warning"}, "TAB-3", "rank labels", str(labels),
+    rep.check(labels == {"LABEL_ERROR": "error", "LABEL_WARNING": "warning"}, rule, "rank labels", str(labels),
               "rank labels are %s" % labels, vmod.path)
     ve = prog.cls("ValidationError")
     init = ve.lookup_method("__init__")
     rep.check(init.params[1:] == ["obj", "msg", "rank", "validation_id"] and unparse(init.defaults.get("rank", ast.Constant(value=0))) == "LABEL_ERROR",
-              "TAB-3", "ValidationError signature", "(obj, msg, rank=LABEL_ERROR, validation_id=None)",
+              rule, "ValidationError signature", "(obj, msg, rank=LABEL_ERROR, validation_id=None)",
               "ValidationError.__init__ signature/defaults changed: %s" % init.params, init.where)
     for prop, lab in (("is_error", "LABEL_ERROR"), ("is_warning", "LABEL_WARNING")):
         g = ve.lookup_prop(prop, "getter")
         rets = [unparse(n.value) for n in walk_no_nested(g.node) if isinstance(n, ast.Return)]
-        rep.check(rets == ["self.rank == %s" % lab], "TAB-3", "ValidationError.%s" % prop, "self.rank == %s" % lab,
+        rep.check(rets == ["self.rank == %s" % lab], rule, "ValidationError.%s" % prop, "self.rank == %s" % lab,
                   "%s is %s" % (prop, rets), g.where, witness="warnings block saving / errors do not")
     n_ctor = 0
     for f in vmod.functions.values():
@@ -148,17 +151,35 @@ def run(prog, rep):
                     continue
             for i in sorted(ids_here):
                 if i == "<none>":
-                    rep.fail("TAB-3", "%s|no-validation-id" % f.short, "ValidationError constructed without validation_id in %s" % f.short, where(f, c),
+                    rep.fail(rule, "%s|no-validation-id" % f.short, "ValidationError constructed without validation_id in %s" % f.short, where(f, c),
                              witness="issue cannot be attributed to a rule")
                     continue
                 if i not in VALIDATION_RULES:
                     continue
                 want = VALIDATION_RULES[i][1]
+                if only_rank is not None and want != only_rank:
+                    continue
                 got = {"LABEL_ERROR": "error", "LABEL_WARNING": "warning"}.get(rank_t, rank_t)
-                rep.check(got == want, "TAB-3", "%s reports %s as %s" % (f.short, i, got), "documented rank %s" % want,
+                rep.check(got == want, rule, "%s reports %s as %s" % (f.short, i, got), "documented rank %s" % want,
                           "%s reports IssueID.%s with rank %s, documented: %s" % (f.short, i, got, want), where(f, c),
                           witness="a %s blocks saving" % i if want == "warning" else "a document with %s can be saved" % i)
-    rep.floor("TAB-3", n_ctor, 12, "ValidationError constructions")
+    rep.floor(rule, n_ctor, 12, "ValidationError constructions")
+
+
+
+def run(prog, rep):
+    rep.decided = DECIDED
+    rep.not_decided = NOT_DECIDED
+    an = analysis.get(prog)
+    an.note_coverage(rep)
+    K, S = an.k, an.s
+    vmod = prog.module_of("validation")
+    default, custom = K.registry()
+    fd = Folder(prog)
+
+    tab2_rule(prog, rep, K, "TAB-2")
+
+    tab3_rule(prog, rep, "TAB-3")
 
     # ----------------------------------------------------------------- ESC-1
     rep.rule("ESC-1", "for every registered rule h (default and custom) and for Validation.{__init__, run_validation, validate, report, "
@@ -259,6 +280,24 @@ def run(prog, rep):
     want = "%s.error(EACH(EACH(%s._handlers.get(%s.format().name, []))(%s)))" % (vme, vme, vobj, vobj)
     rep.check(want in recs, "WALK-2", "validate() runs the handlers of the object's kind", "ok",
               "validate() no longer selects handlers by obj.format().name and records what they yield: %s" % recs, val.where)
+
+    # --------------------------------------------------------------- TRUTH-4
+    rep.rule("TRUTH-4", "no registered rule decides on the truthiness of an attribute whose set values include falsy ones (%s): "
+                        "`if not prop.dependency_value: return` skips the check for a dependency value of 0 / False"
+             % ", ".join(sorted(FALSY_SET_ATTRIBUTES)))
+    n_t = 0
+    for h in handlers + helpers:
+        for hh in private_closure(h):
+            for n in ast.walk(hh.node):
+                tests = [n.test] if isinstance(n, (ast.If, ast.IfExp, ast.While)) else []
+                for t0 in tests:
+                    for txt, pol, e0 in truthiness_tests(t0):
+                        if isinstance(e0, ast.Attribute) and e0.attr in FALSY_SET_ATTRIBUTES:
+                            n_t += 1
+                            rep.fail("TRUTH-4", "%s|%s" % (hh.short, e0.attr), "%s tests the truthiness of `%s`: %s" % (hh.short, txt, FALSY_SET_ATTRIBUTES[e0.attr]),
+                                     where(hh, n), witness="a Property with dependency_value 0 whose dependency holds other values gets no warning")
+    if not n_t:
+        rep.ok("TRUTH-4", "no truthiness test on %s" % "/".join(sorted(FALSY_SET_ATTRIBUTES)), "rules test `is None`", vmod.path)
 
     # ----------------------------------------------------------------- ORD-2
     cardinality_validation_rule(prog, rep)
